@@ -518,6 +518,18 @@ def gen_quasi(rng):
     shots, bound = rng.choice([None, 1, 1000, 1024]), rng.choice([None, 0.0, 0.03125, 1.0, rng.random()])
     if not keys:
         return {"o": "QuasiDistribution", "a": [{"d": []}, shots, bound, 0], "ctor": "ints"}
+    if rng.random() < 0.2:
+        # sampled from a wide register (54-80 qubits): outcomes above 2**53 that no double represents, neighbours k and k+1,
+        # high bits set and low bits differing - every outcome, probability and the width must survive
+        width = rng.randint(54, 80)
+        base = rng.choice([2 ** 53, 2 ** 54, 2 ** 59, 2 ** (width - 1)])
+        ks = []
+        for k in [base + 1, base + 2, base + 3, 2 ** 59 + 1, 2 ** 54 + 3, 2 ** (width - 1) + rng.randrange(2 ** 20), rng.randrange(2 ** width), 0, 1]:
+            if k < 2 ** width and k not in ks:
+                ks.append(k)
+        ks = rng.sample(ks, rng.randint(2, len(ks)))
+        data = [[k, rng.choice([0.5, 0.25, 0.125, rng.random()])] for k in ks]
+        return {"o": "QuasiDistribution", "a": [{"d": data}, shots, bound, width], "ctor": "bits"}
     minimal = max(1, max(keys).bit_length())
     if rng.random() < 0.3:
         return {"o": "QuasiDistribution", "a": [{"d": data}, shots, bound, minimal], "ctor": "ints"}
@@ -549,9 +561,10 @@ def gen_solver_result(rng):
         aux = {"d": [[k, gen_scalar(rng)] for k in keys]}
     ev = rng.choice([None, gen_number(rng), gen_number(rng), {"c": [rng.choice(FLOATS), rng.choice([0.0, 1.0, -0.5])]}])
     hist = rng.choice([None, [], [gen_popeval(rng, n) for _ in range(rng.randint(1, 2))]])
-    evals = rng.choice([None, [], [rng.randint(0, 200) for _ in range(rng.randint(1, 4))]])
+    BIG = [2 ** 53 + 1, 2 ** 59 + 1, 2 ** 63, 2 ** 64 + 3, 10 ** 30 + 7]  # no double / no int64 holds these
+    evals = rng.choice([None, [], [rng.randint(0, 200) for _ in range(rng.randint(1, 4))], [rng.choice(BIG), rng.choice(BIG) + 1, 5]])
     return obj("EvolvingAnsatzMinimumEigensolverResult", ev, aux, rng.choice([None, gen_quasi(rng), gen_quasi(rng)]),
-               rng.choice([None, gen_individual(rng, n), gen_individual(rng, n)]), evals, rng.choice([None, 0, 1, 17]), hist,
+               rng.choice([None, gen_individual(rng, n), gen_individual(rng, n)]), evals, rng.choice([None, 0, 1, 17, 2 ** 53 + 1, 2 ** 70 + 1]), hist,
                rng.choice([None, None] + [{"qc": f"QPY{k}"} for k in range(4)]))
 
 
@@ -576,3 +589,42 @@ def gen_result_odd_aux(rng):
         aux = [tup([gen_number(rng), {"d": [["variance", 0.5]]}])]  # qiskit_algorithms' (value, metadata) pairs
     r["a"][1] = aux
     return r
+
+
+# ----------------------------------------------------------------------------- families with colliding names
+def vary(pv, delta):
+    """the same object with the same names but other content: operation durations, start times, parameter values and
+    probabilities shifted by a function of delta - consistently wherever the component occurs (instance and schedule, species maps)"""
+    if isinstance(pv, list):
+        return [vary(x, delta) for x in pv]
+    if not isinstance(pv, dict):
+        return pv
+    if "o" in pv:
+        a = [vary(x, delta) for x in pv["a"]]
+        if pv["o"] == "Operation":
+            a[3] = a[3] + delta
+        elif pv["o"] == "ScheduledOperation":
+            a[1] = a[1] + 2 * delta
+        elif pv["o"] == "EVQEIndividual":
+            a[2] = {"t": [v + delta if type(v) is int else (v + 0.5 * delta if isinstance(v, float) and abs(v) < 1e15 else v) for v in a[2]["t"]]}
+        elif pv["o"] == "QuasiDistribution":
+            a[0] = {"d": [[k, v + delta if type(v) is int else v / (1 + delta)] for k, v in a[0]["d"]]}
+        out = dict(pv)
+        out["a"] = a
+        return out
+    if "t" in pv:
+        return {"t": [vary(x, delta) for x in pv["t"]]}
+    if "d" in pv:
+        return {"d": [[vary(k, delta), vary(v, delta)] for k, v in pv["d"]]}
+    return pv
+
+
+def gen_document(rng, gen, shape):
+    """several encodable objects with colliding names in one JSON document: a list, or a dict with plain string keys"""
+    base = gen(rng)
+    members = [vary(base, d) for d in range(rng.randint(2, 3))]
+    if rng.random() < 0.5:
+        members.reverse()
+    if shape == "list":
+        return members
+    return {"d": [[f"member {i}", m] for i, m in enumerate(members)]}
